@@ -473,6 +473,25 @@ func registerVX() {
 	}
 }
 
+// publish: an object stored in a shared pool (sync.Map) becomes visible to
+// other requests; with the lockset instrumentation on, its fields are watched.
+func (m *Machine) publish(v Value) {
+	if m.env["watch"] == nil {
+		return
+	}
+	if itf, ok := v.(Iface); ok {
+		if ptr, ok := itf.V.(*Value); ok && ptr != nil {
+			if pt, ok := itf.T.Underlying().(*types.Pointer); ok {
+				name := pt.Elem().String()
+				if i := strings.LastIndex(name, "."); i >= 0 {
+					name = name[i+1:]
+				}
+				m.watchStruct(ptr, pt.Elem(), name)
+			}
+		}
+	}
+}
+
 func (m *Machine) uniqueLabel(label string) string {
 	k := m.labelCnt[label]
 	m.labelCnt[label]++
@@ -836,28 +855,17 @@ func registerStd() {
 	I["(*sync.Map).Store"] = func(m *Machine, fr *frame, args []Value) Value {
 		mp := m.syncMap(args[0].(*Value))
 		m.onSyncMap(fr, args[0].(*Value), true)
-		if m.env["watch"] != nil {
-			// an object stored in a shared pool is published: watch its fields
-			if itf, ok := args[2].(Iface); ok {
-				if ptr, ok := itf.V.(*Value); ok && ptr != nil {
-					if pt, ok := itf.T.Underlying().(*types.Pointer); ok {
-						name := pt.Elem().String()
-						if i := strings.LastIndex(name, "."); i >= 0 {
-							name = name[i+1:]
-						}
-						m.watchStruct(ptr, pt.Elem(), name)
-					}
-				}
-			}
-		}
+		m.publish(args[2])
 		m.mapUpdate(fr, mp, args[1], args[2])
 		return nil
 	}
 	I["(*sync.Map).LoadOrStore"] = func(m *Machine, fr *frame, args []Value) Value {
 		mp := m.syncMap(args[0].(*Value))
+		m.onSyncMap(fr, args[0].(*Value), true)
 		if e := m.mapFind(fr, mp, args[1]); e != nil {
 			return Tuple{e.V, m.C.True}
 		}
+		m.publish(args[2])
 		mp.E = append(mp.E, &mapEntry{K: args[1], V: args[2]})
 		return Tuple{args[2], m.C.False}
 	}
